@@ -197,7 +197,18 @@ def _run_unit(arg):
 
 
 def run_units(mod, tier, jobs=None):
-    units = list(mod.units(tier, SEED))
+    try:
+        units = list(mod.units(tier, SEED))
+    except Exception as e:
+        # the work list itself is computed with the library (default configurations, validity domains): if that already fails,
+        # it is reported like any exception escaping a unit
+        total = Result()
+        total.v(mod.PROPERTY, 'unit', 'unexpected-exception', 'enumerating-units/' + exc_site(e), {'enumerating_units': tier},
+                expected='the work list can be computed (default configurations, validity domains)', observed=exc_text(e),
+                detail=''.join(traceback.format_exception(type(e), e, e.__traceback__))[-1800:])
+        total['n_units'] = 0
+        total['slowest_units'] = []
+        return total
     args = [(mod.__name__, tier, i, uid, payload) for i, (uid, payload) in enumerate(units)]
     total = Result()
     walls = []
